@@ -833,8 +833,13 @@ theorem slx_reply_bit (a : Addr) (hty : elemTy a.fileType = some (.int .int))
     (haf : a.addressField = 3) (hct : a.fileType ≠ [84] ∧ a.fileType ≠ [67]) (hsz : dataSize a.fileType = 2)
     (b0 b1 : UInt8) (rest : Bytes) :
     parseReadReply a (b0 :: b1 :: rest) = .ok (.bool (intBit (int16 (b0.toNat + 256 * b1.toNat)) a.subElement)) := by
+  have h70 : a.fileType ≠ [70] := by
+    intro h
+    have hr : elemTy [70] = some .real := rfl
+    rw [h, hr] at hty
+    cases hty
   unfold parseReadReply
-  simp only [hty, hsz, haf, hct.1, hct.2, or_self, false_and, if_false, if_true, List.take_succ_cons, List.take_zero,
+  simp only [hty, hsz, haf, hct.1, hct.2, h70, or_self, false_and, if_false, if_true, List.take_succ_cons, List.take_zero,
     slx_dec16]
 
 theorem slx_reply_ct (a : Addr) (hft : a.fileType = [84] ∨ a.fileType = [67]) (haf : a.addressField = 3)
@@ -845,13 +850,14 @@ theorem slx_reply_ct (a : Addr) (hft : a.fileType = [84] ∨ a.fileType = [67]) 
            else .bool (intBit (int16 (b0.toNat + 256 * b1.toNat)) a.subElement)) := by
   have hty : elemTy a.fileType = some (.int .int) := by rcases hft with h | h <;> rw [h] <;> rfl
   have hsz : dataSize a.fileType = 6 := by rcases hft with h | h <;> rw [h] <;> decide
+  have h70 : a.fileType ≠ [70] := by rcases hft with h | h <;> rw [h] <;> decide
   unfold parseReadReply
   simp only [hty, hsz, haf, hft, true_and, if_true]
   by_cases h1 : a.subElement = 1
   · simp [h1, slx_dec16]
   · by_cases h2 : a.subElement = 2
     · simp [h2, slx_dec16]
-    · simp [h1, h2, slx_dec16]
+    · simp [h1, h2, h70, slx_dec16]
 
 
 theorem slx_take_drop_cons (d : Bytes) (off k : Nat) (h : off < d.length) :
